@@ -57,7 +57,12 @@ func Run(ctx *core.Ctx) {
 		cases []*MsgCase
 		xerr  error
 	)
-	wg.Add(3)
+	var found []string
+	wg.Add(4)
+	go func() {
+		defer wg.Done()
+		found = SearchWitnesses(ctx.Seed, time.Duration(ctx.Pick(2, 10))*time.Second, ctx.Pick(4, 12))
+	}()
 	go func() { defer wg.Done(); runM1(ctx) }()
 	go func() { defer wg.Done(); runDeviations(ctx) }()
 	go func() { defer wg.Done(); cases, xerr = ExportCases(ctx, maxParts, maxInner, 8) }()
@@ -66,6 +71,23 @@ func Run(ctx *core.Ctx) {
 		ctx.ToolError("export: %v", xerr)
 		return
 	}
+	// the pinned boundary texts of the fingerprint routine must be what they are
+	// said to be, and whatever the bounded search found joins the family
+	nb := 0
+	for _, c := range cases {
+		if len(c.Parts) == 1 && c.Parts[0].K == "text" && IsFpBoundary(c.Parts[0].S) != "" {
+			nb++
+		}
+	}
+	if nb < 6 {
+		ctx.ToolError("only %d of the exported texts are boundary inputs of the fingerprint routine (6 pinned)", nb)
+		return
+	}
+	for i, w := range found {
+		cases = append(cases, WitnessCase(i, w))
+	}
+	ctx.Extra["fingerprint_boundary_texts_pinned"] = nb
+	ctx.Extra["fingerprint_boundary_texts_found_by_search"] = found
 	ctx.Extra["m2_cases"] = len(cases)
 	ctx.Extra["m2_bounds"] = fmt.Sprintf("MaxParts=%d MaxInner=%d + extras", maxParts, maxInner)
 	ctx.Exhaustive = true
